@@ -3,11 +3,20 @@
 //! /repo's working tree, and writes inputs + observations as Coq terms for the model side.
 mod out;
 mod rng;
+mod c02;
+mod c05;
+mod c07;
+mod progs;
+mod c11;
 mod c12;
+mod c13;
 mod c14;
 mod c10;
 pub mod modgen;
+mod c16;
+mod c19;
 mod probes;
+mod gcprobe;
 
 use std::path::PathBuf;
 
@@ -28,7 +37,8 @@ fn main() {
     let cmd = argv[1].clone();
     if cmd == "c10-witness" { out::start_watchdog(); c10::witness(); return; }
     if cmd == "dump-stdlib" { print!("{}", modgen::dump_stdlib()); return; }
-    if cmd == "probe" { if argv[2] == "handles" { probes::handles(); } else { probes::run(&argv[2]); } return; }
+    if cmd == "gcprobe" { gcprobe::run(&argv[2]); return; }
+    if cmd == "probe" { if argv[2] == "handles" { probes::handles(); } else if argv[2] == "c02-guard-children" { probes::guard_children(); } else if argv[2] == "closure-labels" { probes::closure_labels(); } else { probes::run(&argv[2]); } return; }
     let mut a = Args { prop: argv[2].clone(), seed: 1, n: 300, tier: "quick".into(), out: PathBuf::from("work") };
     let mut i = 3;
     while i < argv.len() {
@@ -43,9 +53,16 @@ fn main() {
     out::start_watchdog();
     std::panic::set_hook(Box::new(|_| {}));
     match (cmd.as_str(), a.prop.as_str()) {
+        ("gen", "C02") => c02::gen(&a),
+        ("gen", "C05") => c05::gen(&a),
+        ("gen", "C07") => c07::gen(&a),
+        ("gen", "C11") => c11::gen(&a),
         ("gen", "C12") => c12::gen(&a),
+        ("gen", "C13") => c13::gen(&a),
         ("gen", "C14") => c14::gen(&a),
         ("gen", "C10") => c10::gen(&a),
+        ("gen", "C16") => c16::gen(&a),
+        ("gen", "C19") => c19::gen(&a),
         _ => { eprintln!("unknown command/property"); std::process::exit(2); }
     }
 }
